@@ -101,11 +101,17 @@ func (m *slowFailModule) HandleMsg(ctx context.Context, _ hwebsocket.ResponseSen
 		return hwebsocket.ErrModuleMsgSkip
 	}
 	var cm hagallpb.CustomMessage
-	if err := msg.DataTo(&cm); err != nil || !bytes.HasPrefix(cm.Body, []byte("SLOWFAIL")) {
+	if err := msg.DataTo(&cm); err != nil {
 		return hwebsocket.ErrModuleMsgSkip
 	}
-	time.Sleep(m.d)
-	return fmt.Errorf("slowfail")
+	switch {
+	case bytes.HasPrefix(cm.Body, []byte("SLOWFAIL")):
+		time.Sleep(m.d)
+		return fmt.Errorf("slowfail")
+	case bytes.HasPrefix(cm.Body, []byte("SLOWOK")): // busy for d, then carries on
+		time.Sleep(m.d)
+	}
+	return hwebsocket.ErrModuleMsgSkip
 }
 
 func l2modules(q url.Values) []modules.Module {
@@ -848,6 +854,33 @@ func (e *l2env) scriptFullQueue(rep int) Outcome {
 	return out
 }
 
+// idlebusy: the idle timer (100 ms) fires WHILE the main loop is busy with a request of this client (150 ms), and more
+// requests of the client are queued behind it: when the loop comes back, the idle tick, the queued requests and (once the
+// tick has been consumed) the queued disconnection are all ready at once, in every order the select may pick them. Whatever
+// the order, the connection must end through the normal path (at the latest once the client has fallen silent).
+func (e *l2env) scriptIdleBusy(rep int) Outcome {
+	out := Outcome{Script: "idle_fires_while_busy", Rep: rep, Model: "J V V V*30 T*100 Y T*100 Y T*100"}
+	o, err := e.begin(true, "idle=100ms&sync=1h&slowfail=150ms", 0)
+	if err != nil {
+		out.Note = "setup: " + err.Error()
+		out.Class = "setup-failed"
+		return out
+	}
+	// six busy periods, each followed by a few quick requests: six chances for the select to see the idle tick, queued
+	// requests and the queued disconnection ready together
+	var buf []byte
+	for k := 0; k < 6; k++ {
+		buf = append(buf, frame(2, mustMarshal(&hagallpb.CustomMessage{Type: hagallpb.MsgType_MSG_TYPE_CUSTOM_MESSAGE, Timestamp: now(), Body: []byte("SLOWOK")}))...)
+		for i := 0; i < 4; i++ {
+			buf = append(buf, frame(2, mustMarshal(&hagallpb.Request{Type: hagallpb.MsgType_MSG_TYPE_PING_REQUEST, Timestamp: now(), RequestId: nextRid()}))...)
+		}
+	}
+	o.c.tcp.Write(buf)
+	e.observe(o, &out)
+	o.c.tcp.Close()
+	return out
+}
+
 // malformed frames
 func (e *l2env) scriptMalformed(kind int, joined bool) Outcome {
 	names := []string{"truncated_protobuf", "text_frame", "no_timestamp", "garbage_1MiB", "raw_garbage_bytes", "undecodable_body", "huge_declared_length", "unknown_opcode"}
@@ -958,6 +991,13 @@ func (e *l2env) scriptStall(variant int) Outcome {
 		out.Model = "J S E*600 Y T*300"
 		params = "idle=700ms&sync=50ms"
 	}
+	if variant == 2 {
+		// stops reading but keeps SENDING (a pose update every 50 ms): it is not idle, but everything sent to it piles up;
+		// the write deadline must end it all the same
+		out.Script = "stall_keeps_sending"
+		out.Model = "J S E*600 D*40 Y T*300"
+		params = "idle=700ms&sync=50ms"
+	}
 	fail := func(err error) Outcome {
 		out.Note = "setup: " + err.Error()
 		out.Class = "setup-failed"
@@ -1001,6 +1041,23 @@ func (e *l2env) scriptStall(variant int) Outcome {
 		}
 	}
 	st.tcp.SetReadDeadline(time.Time{})
+	stopChatter := make(chan struct{})
+	defer close(stopChatter)
+	if variant == 2 {
+		go func() {
+			for i := 0; ; i++ {
+				select {
+				case <-stopChatter:
+					return
+				case <-time.After(50 * time.Millisecond):
+				}
+				st.tcp.SetWriteDeadline(time.Now().Add(200 * time.Millisecond))
+				if st.send(&hagallpb.EntityUpdatePose{Type: hagallpb.MsgType_MSG_TYPE_ENTITY_UPDATE_POSE, Timestamp: now(), EntityId: 1, Pose: pose(float32(i))}) != nil {
+					return
+				}
+			}
+		}()
+	}
 	// flood: custom messages relayed to every member, the stalled one included
 	body := make([]byte, 10000)
 	sent := 0
@@ -1206,7 +1263,7 @@ func planFor(tier string, burstReps int) []scriptSpec {
 	for k := 0; k < 6; k++ {
 		p = append(p, scriptSpec{fmt.Sprintf("hostile:%d", k), 1})
 	}
-	p = append(p, scriptSpec{"stall:0", 1}, scriptSpec{"stall:1", 1})
+	p = append(p, scriptSpec{"stall:0", 1}, scriptSpec{"stall:1", 1}, scriptSpec{"stall:2", 1}, scriptSpec{"idlebusy:0", 8})
 	for _, n := range []int{1, 8, 9, 40, 300} {
 		p = append(p, scriptSpec{fmt.Sprintf("burst:%d:0", n), burstReps}, scriptSpec{fmt.Sprintf("burst:%d:1", n), burstReps / 4})
 	}
@@ -1240,6 +1297,8 @@ func (e *l2env) run(name string, rep int) Outcome {
 		o = e.scriptBurst(arg(1), arg(2) == 1, rep)
 	case "fullqueue":
 		o = e.scriptFullQueue(rep)
+	case "idlebusy":
+		o = e.scriptIdleBusy(rep)
 	case "burstmix":
 		params := ""
 		if arg(2) == 1 {
